@@ -10,6 +10,54 @@ from . import model, step, xmlcmp
 from .findings import Collector, h64
 
 
+DEBUG_LOGGING = False        # set while a shard runs with the library's loggers enabled
+
+
+class debug_logging:
+    """Context manager: the mosromgr loggers enabled down to DEBUG, into a null handler."""
+    def __enter__(self):
+        import logging
+        global DEBUG_LOGGING
+        lg = logging.getLogger('mosromgr')
+        self.old = (lg.level, lg.propagate, logging.root.manager.disable, DEBUG_LOGGING)
+        self.h = logging.NullHandler()
+        logging.disable(logging.NOTSET)
+        lg.setLevel(logging.DEBUG)
+        lg.propagate = False
+        lg.addHandler(self.h)
+        DEBUG_LOGGING = True
+        return self
+
+    def __exit__(self, *exc):
+        import logging
+        global DEBUG_LOGGING
+        lg = logging.getLogger('mosromgr')
+        lg.removeHandler(self.h)
+        lg.setLevel(self.old[0])
+        lg.propagate = self.old[1]
+        logging.disable(self.old[2])
+        DEBUG_LOGGING = self.old[3]
+        return False
+
+
+def with_logging_config(fn):
+    """Half of the shards (chosen by a hash of their arguments) run with the library's
+    loggers enabled down to DEBUG (into a null handler) instead of disabled: what a
+    message does must not depend on how the application configured logging."""
+    import functools
+    import logging
+
+    @functools.wraps(fn)
+    def wrapper(args):
+        if h64(repr(args)) % 2 == 0:
+            return fn(args)
+        with debug_logging():
+            col = fn(args)
+            col.classes['shards-with-DEBUG-logging-enabled'] += 1
+            return col
+    return wrapper
+
+
 def run_given(strategy, fn, n, seed):
     """Run fn(case) on n generated cases.  fn never raises for a property
     violation (it records it); any exception is a harness error and propagates."""
@@ -47,7 +95,12 @@ class StepEval:
 
 def eval_step(case):
     """case {'ro_xml','msg_xml'} -> StepEval (library executed once)."""
+    if case.get('logging') == 'debug' and not DEBUG_LOGGING:
+        with debug_logging():
+            return eval_step(case)
     ev = StepEval()
+    if DEBUG_LOGGING and 'logging' not in case:
+        case = dict(case, logging='debug')      # so that the replay runs the same way
     ev.case = case
     ev.msg = model.Msg(case['msg_xml'])
     ev.state = xmlcmp.state_of(ET.fromstring(case['ro_xml']))
@@ -74,6 +127,7 @@ def _mod(name):
     return importlib.import_module(name)
 
 
+@with_logging_config
 def shard_enum_story(args):
     """Exhaustive story-level scope: one (n stories, layout) cell."""
     from . import gen
@@ -90,6 +144,7 @@ def shard_enum_story(args):
     return col
 
 
+@with_logging_config
 def shard_enum_item(args):
     """Exhaustive item-level scope: one (m items, paragraph layout) cell; a second
     story carries the same item IDs; the addressed story is first / last."""
@@ -107,7 +162,14 @@ def shard_enum_item(args):
             body.append(B.mk_item(i, slug=f'slug {sid}/{i}'))
         if playout in ('trailing-p', 'mixed'):
             body.append(B.P('trailing'))
-        return B.mk_story(sid, slug=f'slug {sid}', timing=B.timing_block({'StoryDuration': '5'}), body=body)
+        st_ = B.mk_story(sid, slug=f'slug {sid}', timing=B.timing_block({'StoryDuration': '5'}), body=body)
+        if playout == 'id-last':
+            # the storyID (and the rest of the head) after the items: an item is child 0
+            head = [c for c in st_ if c.tag not in ('p', 'item')]
+            for h in head:
+                st_.remove(h)
+                st_.append(h)
+        return st_
     other = mk('OTHER', iids)
     target = mk('TGT', iids)
     stories = [target, other] if addressed_pos == 0 else [other, target]
@@ -122,6 +184,7 @@ def shard_enum_item(args):
     return col
 
 
+@with_logging_config
 def shard_hyp_steps(args):
     """Hypothesis single steps: one shard."""
     from . import gen
@@ -132,6 +195,7 @@ def shard_hyp_steps(args):
     return col
 
 
+@with_logging_config
 def shard_enum_stale(args):
     """Directed three-step histories on one live running order: (1) a message of some
     kind, (2) a one-for-one replacement of a story / item by one with a NEW id (the
